@@ -700,6 +700,31 @@ def _base_name(e: ast.AST) -> Optional[str]:
     return e.id if isinstance(e, ast.Name) else None
 
 
+def _alias_names(e: ast.AST) -> Set[str]:
+    """names through which the value of ``e`` can alias existing objects (a computed value -- arithmetic, a call result --
+    is taken to be fresh)"""
+    if isinstance(e, ast.Name):
+        return {e.id}
+    if isinstance(e, (ast.Attribute, ast.Subscript)):
+        b = _base_name(e)
+        return {b} if b else set()
+    if isinstance(e, ast.Starred):
+        return _alias_names(e.value)
+    if isinstance(e, (ast.List, ast.Tuple, ast.Set)):
+        out: Set[str] = set()
+        for x in e.elts:
+            out |= _alias_names(x)
+        return out
+    if isinstance(e, ast.Dict):
+        out = set()
+        for x in e.values:
+            out |= _alias_names(x)
+        return out
+    if isinstance(e, ast.IfExp):
+        return _alias_names(e.body) | _alias_names(e.orelse)
+    return set()
+
+
 def _may_mutate(t: ast.AST, free: Set[str]) -> bool:
     """could executing ``t`` change a value an expression reading ``free`` depends on? (syntactic: rebinding a name,
     storing through / deleting from a base in ``free``, or an unknown call whose receiver or arguments mention one)"""
@@ -711,7 +736,9 @@ def _may_mutate(t: ast.AST, free: Set[str]) -> bool:
         if isinstance(n, ast.AugAssign) and _base_name(n.target) in free:
             return True
         if isinstance(n, ast.Call) and _call_kind(n) == "unknown":
-            mentioned = {m.id for a in list(n.args) + [k.value for k in n.keywords] for m in ast.walk(a) if isinstance(m, ast.Name)}
+            mentioned = set()
+            for a in list(n.args) + [k.value for k in n.keywords]:
+                mentioned |= _alias_names(a)
             if isinstance(n.func, ast.Attribute):
                 b = _base_name(n.func.value)
                 if b is not None:
@@ -874,6 +901,8 @@ class _Strip(ast.NodeTransformer):
         if d == "map" and len(node.args) == 2 and not node.keywords and isinstance(node.args[0], (ast.Name, ast.Attribute)):
             v = ast.Name(id="_m", ctx=ast.Load())
             return ast.copy_location(ast.GeneratorExp(elt=ast.Call(func=node.args[0], args=[v], keywords=[]), generators=[ast.comprehension(target=ast.Name(id="_m", ctx=ast.Store()), iter=node.args[1], ifs=[], is_async=0)]), node)
+        if isinstance(node.func, ast.Attribute) and node.func.attr == "symmetric_difference" and len(node.args) == 1 and not node.keywords:
+            return ast.copy_location(ast.BinOp(left=node.func.value, op=ast.BitXor(), right=node.args[0]), node)
         # (f if c else g)(args) -> f(args) if c else g(args)
         if isinstance(node.func, ast.IfExp):
             return ast.copy_location(ast.IfExp(test=node.func.test, body=ast.Call(func=node.func.body, args=node.args, keywords=node.keywords), orelse=ast.Call(func=node.func.orelse, args=copy.deepcopy(node.args), keywords=copy.deepcopy(node.keywords))), node)
@@ -1451,10 +1480,31 @@ def _split_multi_assign_branches(stmts: List[ast.stmt]) -> List[ast.stmt]:
     return out
 
 
+_INVERSE_CMP = {ast.Eq: ast.NotEq, ast.NotEq: ast.Eq, ast.In: ast.NotIn, ast.NotIn: ast.In, ast.Is: ast.IsNot, ast.IsNot: ast.Is, ast.Lt: ast.GtE, ast.GtE: ast.Lt, ast.Gt: ast.LtE, ast.LtE: ast.Gt}
+
+
 def _negate(test: ast.AST) -> ast.AST:
+    """logical negation in negation-normal form (order comparisons are inverted as on a total order: the quantities
+    compared in this code base are integers, floats and lengths)"""
     if isinstance(test, ast.UnaryOp) and isinstance(test.op, ast.Not):
         return test.operand
+    if isinstance(test, ast.Compare) and len(test.ops) == 1 and type(test.ops[0]) in _INVERSE_CMP:
+        return ast.copy_location(ast.Compare(left=test.left, ops=[_INVERSE_CMP[type(test.ops[0])]()], comparators=test.comparators), test)
+    if isinstance(test, ast.BoolOp):
+        return ast.copy_location(ast.BoolOp(op=ast.And() if isinstance(test.op, ast.Or) else ast.Or(), values=[_negate(v) for v in test.values]), test)
     return ast.UnaryOp(op=ast.Not(), operand=test)
+
+
+def _nnf(test: ast.AST) -> ast.AST:
+    """push ``not`` inwards"""
+    if isinstance(test, ast.UnaryOp) and isinstance(test.op, ast.Not):
+        inner = test.operand
+        if isinstance(inner, (ast.BoolOp, ast.Compare)) or (isinstance(inner, ast.UnaryOp) and isinstance(inner.op, ast.Not)):
+            return _nnf(_negate(inner))
+        return test
+    if isinstance(test, ast.BoolOp):
+        return ast.copy_location(ast.BoolOp(op=test.op, values=[_nnf(v) for v in test.values]), test)
+    return test
 
 
 def _block_exits(stmts: Sequence[ast.stmt], loop: bool) -> bool:
@@ -1496,6 +1546,9 @@ def _normalise_blocks(stmts: List[ast.stmt], in_loop: bool) -> List[ast.stmt]:
                 test, body, orelse = _negate(test), orelse, []
             if in_loop and orelse and len(orelse) == 1 and isinstance(orelse[0], ast.Continue):
                 orelse = []
+            test = _nnf(test)
+            if isinstance(test, ast.BoolOp) and isinstance(test.op, ast.Or) and orelse:
+                test, body, orelse = _negate(test), orelse, body
             # polarity: strip a leading `not` / a negative comparison by swapping branches (only when both exist)
             if isinstance(test, ast.UnaryOp) and isinstance(test.op, ast.Not) and orelse:
                 test, body, orelse = test.operand, orelse, body
@@ -1561,8 +1614,13 @@ def _ifexp_polarity(node: ast.AST) -> ast.AST:
     class T(ast.NodeTransformer):
         def visit_IfExp(self, n):
             self.generic_visit(n)
+            n.test = _nnf(n.test)
+            if isinstance(n.test, ast.BoolOp) and isinstance(n.test.op, ast.Or):
+                return ast.copy_location(ast.IfExp(test=_negate(n.test), body=n.orelse, orelse=n.body), n)
             if isinstance(n.test, ast.UnaryOp) and isinstance(n.test.op, ast.Not):
                 return ast.copy_location(ast.IfExp(test=n.test.operand, body=n.orelse, orelse=n.body), n)
+            if isinstance(n.test, ast.Compare) and len(n.test.ops) == 1 and isinstance(n.test.ops[0], (ast.IsNot, ast.NotEq, ast.NotIn)):
+                return ast.copy_location(ast.IfExp(test=_negate(n.test), body=n.orelse, orelse=n.body), n)
             return n
 
     return T().visit(node)
@@ -1676,7 +1734,7 @@ def _inline_temporaries(fn: ast.FunctionDef) -> None:
                     if len(binds.get(name, [])) != 1:
                         # several bindings: fine when this one cannot be seen outside the statements that follow it in
                         # its own block (disjoint branches each binding and using their own copy)
-                        if not following_ok(name, following) or in_loop:
+                        if not (_loads_follow_a_def(fn, name) or (following_ok(name, following) and not in_loop)):
                             continue
                     if isinstance(s.value, (ast.List, ast.Dict, ast.Set, ast.ListComp, ast.DictComp, ast.SetComp)) and _mutated_later(name, stmts[idx + 1:]):
                         continue
@@ -1759,6 +1817,54 @@ def _inline_temporaries(fn: ast.FunctionDef) -> None:
         changed = try_block(fn.body, False)
         if not changed:
             break
+
+
+def _loads_follow_a_def(fn: ast.FunctionDef, name: str) -> bool:
+    """every read of ``name`` comes, within its own block or an enclosing one, after a plain assignment to it that
+    dominates it syntactically -- so no read can see the value of an earlier loop iteration or of another branch"""
+    ok = True
+
+    def loads_in(exprs) -> bool:
+        return any(isinstance(n, ast.Name) and n.id == name and isinstance(n.ctx, ast.Load) for e in exprs for n in ast.walk(e))
+
+    def check(block: Sequence[ast.stmt], defined: bool) -> None:
+        nonlocal ok
+        for st in block:
+            if isinstance(st, (ast.FunctionDef, ast.AsyncFunctionDef, ast.ClassDef, ast.Lambda)):
+                if loads_in([st]):
+                    ok = False
+                continue
+            heads = _header_exprs(st)
+            if loads_in([h for h in heads if not (isinstance(st, ast.Assign) and h in st.targets and isinstance(h, ast.Name))]) and not defined:
+                ok = False
+            for field in ("body", "orelse", "finalbody"):
+                v = getattr(st, field, None)
+                if isinstance(v, list) and v and isinstance(v[0], ast.stmt):
+                    check(v, defined)
+            if isinstance(st, ast.Try):
+                for h in st.handlers:
+                    check(h.body, defined)
+            if isinstance(st, ast.Assign) and len(st.targets) == 1 and isinstance(st.targets[0], ast.Name) and st.targets[0].id == name:
+                defined = True
+            else:
+                own = []
+                if isinstance(st, (ast.For, ast.AsyncFor)):
+                    own = [st.target]
+                elif isinstance(st, (ast.With, ast.AsyncWith)):
+                    own = [i.optional_vars for i in st.items if i.optional_vars is not None]
+                elif isinstance(st, (ast.AugAssign, ast.AnnAssign)):
+                    own = [st.target]
+                elif isinstance(st, ast.Assign):
+                    own = list(st.targets)
+                elif isinstance(st, ast.Delete):
+                    own = list(st.targets)
+                if any(isinstance(n, ast.Name) and n.id == name for o in own for n in ast.walk(o)):
+                    ok = False  # bound by a loop target / with / augmented / tuple assignment: not handled
+            if isinstance(st, ast.Try) and any(h.name == name for h in st.handlers):
+                ok = False
+
+    check(fn.body, False)
+    return ok
 
 
 def _is_alias_expr(e: ast.AST) -> bool:
@@ -2188,6 +2294,44 @@ def _sink_assignments(stmts: List[ast.stmt]) -> List[ast.stmt]:
     return stmts
 
 
+def _sort_inert_runs(stmts: List[ast.stmt]) -> List[ast.stmt]:
+    """consecutive ``name = <expr without unknown calls>`` statements that do not depend on one another may run in any
+    order: put them in a fixed one (by the shape of the expression, which does not depend on local names' spelling)"""
+    for s in stmts:
+        for field in ("body", "orelse", "finalbody"):
+            v = getattr(s, field, None)
+            if isinstance(v, list) and v and isinstance(v[0], ast.stmt) and not isinstance(s, (ast.FunctionDef, ast.AsyncFunctionDef, ast.ClassDef)):
+                setattr(s, field, _sort_inert_runs(v))
+        if isinstance(s, ast.Try):
+            for h in s.handlers:
+                h.body = _sort_inert_runs(h.body)
+    out: List[ast.stmt] = []
+    run: List[ast.stmt] = []
+
+    def flush():
+        if len(run) > 1:
+            tg = [r.targets[0].id for r in run]
+            reads = [{n.id for n in ast.walk(r.value) if isinstance(n, ast.Name)} for r in run]
+            independent = len(set(tg)) == len(tg) and not any(tg[i] in reads[j] for i in range(len(run)) for j in range(len(run)))
+            if independent:
+                class _Anon(ast.NodeTransformer):
+                    def visit_Name(self, n):
+                        return n
+
+                run.sort(key=lambda r: ast.dump(r.value))
+        out.extend(run)
+        run.clear()
+
+    for s in stmts:
+        if isinstance(s, ast.Assign) and len(s.targets) == 1 and isinstance(s.targets[0], ast.Name) and _expr_kind(s.value) != "unknown" and not _has_impure_call(s.value):
+            run.append(s)
+        else:
+            flush()
+            out.append(s)
+    flush()
+    return out
+
+
 def canonical_function(fn: ast.FunctionDef, _nested: bool = False) -> ast.FunctionDef:
     f = fn if _nested else copy.deepcopy(fn)
     f.decorator_list = list(f.decorator_list)
@@ -2229,6 +2373,7 @@ def canonical_function(fn: ast.FunctionDef, _nested: bool = False) -> ast.Functi
         f = _Strip().visit(f)
         ast.fix_missing_locations(f)
     _fix_loops(f)
+    f.body = _sort_inert_runs(list(f.body))
     _coalesce_copies(f)
     f.body = _normalise_blocks(list(f.body), False) or [ast.Pass()]
     f = _ifexp_polarity(f)
